@@ -237,4 +237,38 @@ def _is_double_pid(pid: str, r: Dict[str, Any]) -> bool:
 
 
 def replay(rep: Dict[str, Any]) -> Dict[str, Any]:
-    return {"violation": False, "note": "re-run ./check C09; the case is identified by its key", "key": rep.get("key")}
+    """Re-run exactly one case in fresh processes."""
+    kind = rep.get("kind")
+    if kind == "flag":
+        with Pool(1, init=("mc.runners", "warm_export")) as pool:
+            fm = pool.map("checks.c09", "job_flag_matrix", [None])[0]
+        row = rep["row"]
+        hit = [r for r in fm.get("rows", []) if (r["start"], r["flag"], r["event"]) == (row["start"], row["flag"], row["event"])]
+        return {"violation": any(r["after"] != r["start"] for r in hit), "observed": hit}
+    d = scratch_dir("c09r")
+    try:
+        if kind == "single":
+            case = rep["case"]
+            with Pool(1, init=("mc.runners", "warm_export")) as pool:
+                if "kind" in case and "pid" not in case:
+                    r = pool.map("checks.c09", "job_const_export", [dict(case, out_dir=None)])[0]
+                else:
+                    r = pool.map("mc.runners", "export_job", [{"pid": case["pid"]}])[0]
+                    r.pop("data", None)
+            return {"violation": bool(r.get("double_places")) or any(t in (11, 15) for t in r.get("out_types", [])), "observed": r}
+        if kind == "const":
+            with Pool(1, init=("mc.runners", "warm_export")) as pool:
+                e = pool.map("checks.c09", "job_const_export", [{"kind": rep["case"]["kind"], "double": True, "out_dir": d}])[0]
+            with Pool(1, init=("mc.runners", "warm_oracle")) as pool:
+                r = pool.map("checks.c09", "job_const_oracle", [{"kind": rep["case"]["kind"], "path": e["path"]}])[0]
+            return {"violation": bool(r.get("diff")), "observed": r}
+        if kind == "double":
+            with Pool(1, init=("mc.runners", "warm_export")) as pool:
+                e = pool.map("mc.runners", "export_job", [{"pid": rep["pid"], "out_dir": d}])[0]
+            with Pool(1, init=("mc.runners", "warm_oracle")) as pool:
+                r = pool.map("mc.runners", "numeric_job", [{"pid": rep["pid"], "path": e["path"], "tier": "c09", "require_all_f64": True}])[0]
+            ms = [m for m in r.get("mismatch", []) if m["class"] == "value" and m.get("ratio") is not None and 1.0 < m["ratio"] < 1e4]
+            return {"violation": bool(ms), "observed": ms[:3]}
+    finally:
+        shutil.rmtree(d, ignore_errors=True)
+    return {"violation": False, "note": "unknown replay kind", "key": rep.get("key")}
